@@ -61,7 +61,24 @@ def make_call(rng, corpus_pool):
         bad = rng.choice([f"DS_out{k} <- DS_1[calc Me_2 := Me_404 + {k}];", f"DS_out{k} <- DS_1 + DS_404;", f"DS_out{k} <- DS_1[keep Me_1, Me_1];",
                           f"DS_ok <- DS_1; DS_out{k} <- DS_1[calc Me_2 := Me_1 || \"x\"];", f"DS_out{k} <- ;", f"DS_out{k} <- DS_1[calc Me_2 := ln(Me_1 - 1000)];"])
         return {"kind": rng.choice(["run", "semantic"]), "feature": "error", "script": bad}
-    if r < 0.9 or not corpus_pool:
+    if r < 0.84:
+        # a hierarchical ruleset defined at the top and used (without an explicit rule component) after many other statements: the
+        # AST builder remembers the signature in module-level state between the definition and the use
+        k = rng.randint(1, 9)
+        filler = " ".join(f"F{j} := DS_1 * {j + k};" for j in range(rng.choice([3, 12, 25])))
+        use = rng.choice(["DS_r <- hierarchy(DS_1, hr1 non_null all);", "DS_r <- check_hierarchy(DS_1, hr1 all);", "DS_r <- hierarchy(DS_1, hr1);"])
+        script = f"define hierarchical ruleset hr1 (variable rule Id_2) is A = B + C; B >= C end hierarchical ruleset; {filler} {use}"
+        return {"kind": rng.choice(["run", "semantic", "prettify", "create_ast"]), "feature": "hr", "script": script}
+    if r < 0.9:
+        # statements that need different SQL macro sets (division, instr, time operators)
+        k = rng.randint(1, 9)
+        # two macro sets only (division / instr), many different scripts per set: concurrent runs then often need the same set
+        # right after a run that needed the other one
+        script = rng.choice([f"DS_r <- DS_1 / {k};", f"DS_r <- DS_1[calc Me_2 := instr(Id_2, \"{'ABC'[k % 3]}\")];", f"DS_r <- DS_1[calc Me_2 := Me_1 / {k + 1}];",
+                             f"DS_r <- DS_1[calc Me_2 := instr(Id_2, \"{'ABC'[k % 3]}\", 1, 1)];", f"DS_r <- DS_1[filter Me_1 / {k} > 1];",
+                             f"DS_r <- DS_1[filter instr(Id_2, \"{'CBA'[k % 3]}\") > 0];"])
+        return {"kind": "run", "feature": "macros", "script": script}
+    if r < 0.95 or not corpus_pool:
         k = rng.randint(1, 9)
         ops = rng.sample(["DS_r <- DS_1 * {k};", "DS_s <- DS_1[calc Me_2 := Me_1 - {k}];", "DS_t <- sum(DS_1 group by Id_1);",
                           "DS_u <- inner_join(DS_1, DS_1[rename Me_1 to Me_3] as d2);", "sc_r <- {k} + 1;", "DS_v <- DS_1[filter Me_1 > {k}] ;",
@@ -90,6 +107,11 @@ def materialise(call):
         st = eng.structures(eng.mkds("DS_1", comps))
         dp = {"DS_1": eng.mkdf(["Id_1", "Me_1"], [(i + 1, p) for i, p in enumerate(call["periods"])])}
         return (call["script"], st, dp, {"time_period_output_format": call["fmt"]})
+    if f in ("hr", "macros"):
+        comps = [("Id_1", "Integer", "Identifier", False), ("Id_2", "String", "Identifier", False), ("Me_1", "Number", "Measure", True)]
+        st = eng.structures(eng.mkds("DS_1", comps))
+        rows = [(i, c, float(v)) for i in (1, 2) for c, v in zip("ABC", (10 + i, 4, 6 + i))]
+        return (call["script"], st, {"DS_1": eng.mkdf(["Id_1", "Id_2", "Me_1"], rows)}, {})
     if f == "corpus":
         kw = dict(corpus.run_kwargs(call["corpus"]))
         script, st, dp = kw.pop("script"), kw.pop("data_structures"), kw.pop("datapoints")
@@ -158,6 +180,7 @@ class Hooks:
         self.events = []
         self.yields = 0
         self.total = 0
+        self.group_events = {}
 
     def collect(self):
         import inspect
@@ -190,6 +213,30 @@ class Hooks:
                     fns.append((f"SQLTranspiler.{n}", f))
         except Exception:  # noqa: BLE001
             pass
+        try:
+            import vtlengine.duckdb_transpiler.sql as dsql
+            from vtlengine.AST import ASTDataExchange  # noqa: F401  (module-level ruleset table lives here)
+            for n, f in vars(dsql).items():
+                if inspect.isfunction(f) and f.__module__ == dsql.__name__:
+                    fns.append((f"sql.{n}", f))
+                    # nested helper functions (closures) are separate code objects: hook them too
+                    for const in f.__code__.co_consts:
+                        if inspect.iscode(const):
+                            self.points[const] = f"sql.{n}.<{const.co_name}>"
+        except Exception:  # noqa: BLE001
+            pass
+        try:
+            # the AST builder keeps ruleset signatures in a module-level table between a definition and its uses; these access
+            # points are put into the 'API' group so that a thread parked here is released when another thread enters an API call
+            from vtlengine.AST.ASTConstructor import ASTVisitor as _AV
+            from vtlengine.AST.ASTConstructorModules.Expr import Expr as _EX
+            for cls_, names_ in ((_AV, ("visitDefHierarchical", "visitDefDatapointRuleset")), (_EX, ("visitHierarchyFunctions", "visitValidateHRruleset"))):
+                for n in names_:
+                    f = getattr(cls_, n, None)
+                    if f is not None and hasattr(f, "__code__"):
+                        fns.append((f"API.ast-builder.{n}", f))
+        except Exception:  # noqa: BLE001
+            pass
         import vtlengine.duckdb_transpiler as dt
         for n, f in vars(dt).items():
             if inspect.isfunction(f) and n in ("execute_queries", "transpile", "fetch_result", "load_datapoints_duckdb"):
@@ -208,10 +255,20 @@ class Hooks:
             if st is None:
                 return
             self.total += 1
-            self.events.append((st[0], self.points.get(code, "?"), _when))
+            name = self.points.get(code, "?")
+            self.events.append((st[0], name, _when))
+            group = name.split(".")[0]
+            evt = self.group_events.setdefault(group, threading.Event())
+            evt.set()                      # wakes a thread that is parked inside this group's code (rendezvous, see below)
             if st[2] == "forced" and st[1].random() < 0.35:
                 self.yields += 1
-                time.sleep(st[1].choice((0.0, 0.0002, 0.001, 0.004)))
+                if st[1].random() < 0.5:
+                    time.sleep(st[1].choice((0.0, 0.0002, 0.001, 0.004)))
+                else:
+                    # rendezvous: stay parked at this access point until another thread of the trial reaches an access point of
+                    # the same module (or 25 ms pass): the other thread then runs while this one is inside its window
+                    evt.clear()
+                    evt.wait(0.025)
 
         self.mon.register_callback(self.TOOL, ev.PY_START, lambda code, off: cb(code, _when="start"))
         self.mon.register_callback(self.TOOL, ev.PY_RETURN, lambda code, off, rv: cb(code, _when="return"))
@@ -313,6 +370,11 @@ def make_trial(rng, corpus_pool, mode=None):
         for calls in threads:
             calls[0] = make_call(random.Random(rng.random()), [])
             while calls[0]["feature"] not in ("viral", "tp"):
+                calls[0] = make_call(rng, [])
+    elif focus < 0.45:   # runs that need different SQL macro sets / ruleset signatures against each other
+        for calls in threads:
+            calls[0] = make_call(rng, [])
+            while calls[0]["feature"] not in ("macros", "hr") or calls[0]["kind"] not in ("run", "semantic"):
                 calls[0] = make_call(rng, [])
     return {"threads": threads, "mode": mode or rng.choice(["forced", "forced", "stress"]), "seed": rng.randrange(1 << 30)}
 
